@@ -346,6 +346,9 @@ def c03(payload):
                 for pidx in rng.sample(cand_, min(len(cand_), rng.choice([1, 1, 2]))):
                     lp.append((pidx, complex(rng.uniform(5, 200), rng.uniform(-100, 100))))
             spec['loads'] = [dict(kind='imp', z=[z_.real, z_.imag], attach=[[pidx]]) for pidx, z_ in lp]
+            # sometimes every wire (hence also every image wire) is insulated
+            ins = dict(kind='ins', tag=None, radius_factor=rng.uniform(1.3, 2.5), eps=rng.uniform(1.5, 6)) if rng.random() < 0.3 else None
+            if ins: spec['loads'].append(ins)
             r['spec'] = spec
             G = _solve(spec)
             cond = float(np.linalg.cond(G.Z)); tol = _tol(cond)
@@ -355,32 +358,38 @@ def c03(payload):
             # the others duplicated with z negated
             wires = []
             srcmap = []
+            tolg = 1e-3 * min(s_.seg_len for g_ in G.geo for s_ in g_.segments)
             for g in G.geo:
                 p1 = [float(x) for x in g.endpoints[0]]; p2 = [float(x) for x in g.endpoints[1]]
+                # which ends stand on the ground plane is decided here from the coordinates (|z| below the matching tolerance,
+                # on either side of the plane), not taken from the object; such an end is put exactly onto the plane
+                gnd_ = (abs(p1[2]) < tolg, abs(p2[2]) < tolg)
+                if gnd_[0]: p1[2] = 0.0
+                if gnd_[1]: p2[2] = 0.0
                 vertical = abs(p1[0] - p2[0]) + abs(p1[1] - p2[1]) == 0
                 tp = [g.segtype, g.taper_min, g.taper_max] if getattr(g, 'segtype', 0) else None
                 if tp:
                     # a tapered wire keeps its segmentation; its image is the mirrored wire (described in the opposite direction
                     # for a grounded wire, so that the ground point joins the two: the taper kind 1 <-> 2 goes with the direction)
                     sw = [{1: 2, 2: 1, 3: 3}[tp[0]], tp[1], tp[2]]
-                    if g.is_ground[0]:
+                    if gnd_[0]:
                         wires.append(gen.wire(g.n_segments, [p2[0], p2[1], -p2[2]], p1, g.r_orig, taper=sw))
                         wires.append(gen.wire(g.n_segments, p1, p2, g.r_orig, taper=tp))
-                    elif g.is_ground[1]:
+                    elif gnd_[1]:
                         wires.append(gen.wire(g.n_segments, p1, p2, g.r_orig, taper=tp))
                         wires.append(gen.wire(g.n_segments, p2, [p1[0], p1[1], -p1[2]], g.r_orig, taper=sw))
                     else:
                         wires.append(gen.wire(g.n_segments, p1, p2, g.r_orig, taper=tp))
                         wires.append(gen.wire(g.n_segments, [p1[0], p1[1], -p1[2]], [p2[0], p2[1], -p2[2]], g.r_orig, taper=tp))
                     continue
-                if g.is_ground[0] and vertical:
+                if gnd_[0] and vertical:
                     wires.append(gen.wire(2 * g.n_segments, [p2[0], p2[1], -p2[2]], p2, g.r_orig))     # image .. real, centre = ground point
-                elif g.is_ground[1] and vertical:
+                elif gnd_[1] and vertical:
                     wires.append(gen.wire(2 * g.n_segments, p1, [p1[0], p1[1], -p1[2]], g.r_orig))
-                elif g.is_ground[0]:
+                elif gnd_[0]:
                     wires.append(gen.wire(g.n_segments, [p2[0], p2[1], -p2[2]], p1, g.r_orig))         # image leg up to the ground point
                     wires.append(gen.wire(g.n_segments, p1, p2, g.r_orig))                              # real leg
-                elif g.is_ground[1]:
+                elif gnd_[1]:
                     wires.append(gen.wire(g.n_segments, p1, p2, g.r_orig))
                     wires.append(gen.wire(g.n_segments, p2, [p1[0], p1[1], -p1[2]], g.r_orig))
                 else:
@@ -426,6 +435,7 @@ def c03(payload):
                     fl.append(dict(kind='imp', z=[z_.real, z_.imag], attach=[[int(q.idx)]]))
                     qm = find(pt * np.array([1, 1, -1.0]), d * np.array([-1, -1, 1.0]))
                     fl.append(dict(kind='imp', z=[z_.real, z_.imag], attach=[[int(qm.idx)]]))
+            if ins: fl.append(dict(ins))
             fs['loads'] = fl
             Fm = _solve(fs)
             bad = []
